@@ -328,7 +328,7 @@ func containKind(cell s2.Cell, p s2.Point) (string, float64) {
 	gap := math.Max(math.Max(uv.X.Lo-u, u-uv.X.Hi), math.Max(uv.Y.Lo-v, v-uv.Y.Hi))
 	const eps = 2.220446049250313e-16
 	if gap > eps && gap <= 4*eps {
-		return "Cell.ContainsPoint.marginTooSmall", gap
+		return "Cell.ContainsPoint.leafMargin", gap
 	}
 	return "Cell.ContainsPoint", gap
 }
